@@ -6,6 +6,7 @@ import Rangers.Generated.Evm11Tables
 Line-protocol driver for C11 (see design/C11.md for the grammar).
 
   call   <cfg> <gas> <valueHex> <addr> <inputHex> <ctx> <tape>
+  scall  <cfg> <gas> <addr> <inputHex> <ctx> <tape>          (top-level evm.StaticCall)
   create <cfg> <gas> <valueHex> <initHex> <ctx> <tape>
   gas    <cfg> <op> <memLen> <lastGasCost> <contractGas> <w0,w1,…>   (w0 = top of stack, hex)
   pgas   <addr> <inputHex>
@@ -91,6 +92,16 @@ def step (_ : Unit) (line : String) : Unit × String :=
         let cx ← parseCtx cfg ctx
         let tp := parseTape tape
         let r := topCall cx (fuelFor gas 0 tp) addr value input gas (Global.start tp)
+        pure (showRes r false)).getD "bad-op"
+    | ["scall", cfg, gas, addr, input, ctx, tape] =>
+      (do
+        let cfg ← cfg.toNat?
+        let gas ← gas.toNat?
+        let addr ← hexToNat? addr
+        let input ← parseHexTok input
+        let cx ← parseCtx cfg ctx
+        let tp := parseTape tape
+        let r := topStaticCall cx (fuelFor gas 0 tp) addr input gas (Global.start tp)
         pure (showRes r false)).getD "bad-op"
     | ["create", cfg, gas, value, init, ctx, tape] =>
       (do
